@@ -4,6 +4,7 @@ import (
 	"fmt"
 	"go/token"
 	"go/types"
+	"sort"
 
 	"golang.org/x/tools/go/ssa"
 )
@@ -501,92 +502,223 @@ func recogniseFirstIdx(h *ssa.BasicBlock, prm ssa.Value) (*firstIdxLoop, string)
 	return &firstIdxLoop{ls: ls, ch: ch}, ""
 }
 
+// aff: affine form over the semantic positions I, J, the length n and the second loop's index K.
+type aff struct {
+	co map[string]int64
+	k  int64
+}
+
+func affConst(k int64) aff      { return aff{map[string]int64{}, k} }
+func affVar(v string) aff       { return aff{map[string]int64{v: 1}, 0} }
+func (a aff) add(b aff, sign int64) aff {
+	r := aff{map[string]int64{}, a.k + sign*b.k}
+	for v, c := range a.co {
+		r.co[v] += c
+	}
+	for v, c := range b.co {
+		r.co[v] += sign * c
+	}
+	for v, c := range r.co {
+		if c == 0 {
+			delete(r.co, v)
+		}
+	}
+	return r
+}
+func (a aff) String() string {
+	var vs []string
+	for v := range a.co {
+		vs = append(vs, v)
+	}
+	sort.Strings(vs)
+	out := ""
+	for _, v := range vs {
+		out += fmt.Sprintf("%+d*%s", a.co[v], v)
+	}
+	return out + fmt.Sprintf("%+d", a.k)
+}
+
+// affCmp turns `x op y` into a difference constraint between at most two variables (what a zone can decide).
+func affCmp(x, y aff) (lterm, lterm, bool) {
+	d := x.add(y, -1) // x - y
+	l, r := lconst(d.k), lconst(0)
+	nl, nr := 0, 0
+	for v, c := range d.co {
+		switch c {
+		case 1:
+			l = lterm{v, d.k}
+			nl++
+		case -1:
+			r = lterm{v, 0}
+			nr++
+		default:
+			return l, r, false
+		}
+	}
+	if nl > 1 || nr > 1 {
+		return l, r, false
+	}
+	return l, r, true
+}
+
 func checkHashTag(c *Ctx, fn *ssa.Function) {
-	p := c.P
 	if len(fn.Params) != 1 {
 		c.Undecided("O4", "hashtag signature", fn.Pos(), "expected one parameter")
 		return
 	}
 	prm := fn.Params[0]
-	hs := loopHeaders(fn)
-	if len(hs) != 2 {
-		c.Undecided("O4", "hashtag scans", fn.Pos(), fmt.Sprintf("expected two scan loops, found %d (only the explicit first-index loop idiom is recognised)", len(hs)))
-		return
+	// position sources: explicit first-index loops, or bytes.IndexByte(b[s:], C)
+	type scan struct {
+		loop  *firstIdxLoop
+		call  *ssa.Call
+		ch    int64
+		start ssa.Value // nil = 0
+		blk   *ssa.BasicBlock
+		pos   token.Pos
 	}
+	var scans []*scan
 	loops := map[*ssa.BasicBlock]*firstIdxLoop{}
-	var l1, l2 *firstIdxLoop
-	for _, h := range hs {
+	for _, h := range loopHeaders(fn) {
 		fl, why := recogniseFirstIdx(h, prm)
 		if fl == nil {
 			c.Undecided("O4", "hashtag scan", h.Instrs[0].Pos(), "not a first-index loop: "+why)
 			return
 		}
 		loops[h] = fl
+		sc := &scan{loop: fl, ch: fl.ch, blk: h, pos: fl.ls.phi.Pos()}
+		if !fl.ls.initOK {
+			sc.start = fl.ls.initTerm
+		}
+		scans = append(scans, sc)
 	}
-	// order: the one whose header dominates the other
-	if hs[0].Dominates(hs[1]) {
-		l1, l2 = loops[hs[0]], loops[hs[1]]
-	} else if hs[1].Dominates(hs[0]) {
-		l1, l2 = loops[hs[1]], loops[hs[0]]
-	} else {
+	extra := ""
+	eachInstr(fn, func(b *ssa.BasicBlock, _ int, in ssa.Instruction) {
+		if ia, ok := in.(*ssa.IndexAddr); ok && ia.X == ssa.Value(prm) {
+			inScan := false
+			for _, fl := range loops {
+				if b == fl.ls.body {
+					inScan = true
+				}
+			}
+			if !inScan {
+				extra = "element read outside the scans"
+			}
+		}
+		cc := callOf(in)
+		if cc == nil {
+			return
+		}
+		if _, isB := cc.Value.(*ssa.Builtin); isB {
+			return
+		}
+		call, _ := in.(*ssa.Call)
+		g := calleeFn(cc)
+		if call != nil && g != nil && g.Pkg != nil && g.Pkg.Pkg.Path() == "bytes" && g.Name() == "IndexByte" && len(cc.Args) == 2 {
+			ch, isC := constInt(cc.Args[1])
+			var start ssa.Value
+			okArg := cc.Args[0] == ssa.Value(prm)
+			if sl, ok := cc.Args[0].(*ssa.Slice); ok && sl.X == ssa.Value(prm) && sl.High == nil && sl.Max == nil {
+				okArg, start = true, sl.Low
+			}
+			if isC && okArg {
+				scans = append(scans, &scan{call: call, ch: ch, start: start, blk: b, pos: call.Pos()})
+				return
+			}
+		}
+		extra = "call to " + cc.Value.String()
+	})
+	if len(scans) != 2 {
+		c.Undecided("O4", "hashtag scans", fn.Pos(), fmt.Sprintf("expected two scans of the key (first-index loops or bytes.IndexByte), found %d", len(scans)))
+		return
+	}
+	var s1, s2 *scan
+	switch {
+	case scans[0].blk.Dominates(scans[1].blk) && scans[0].blk != scans[1].blk:
+		s1, s2 = scans[0], scans[1]
+	case scans[1].blk.Dominates(scans[0].blk) && scans[0].blk != scans[1].blk:
+		s1, s2 = scans[1], scans[0]
+	case scans[0].blk == scans[1].blk && scans[0].call != nil && scans[1].call != nil:
+		s1, s2 = scans[0], scans[1]
+		for _, in := range s1.blk.Instrs {
+			if in == ssa.Instruction(scans[1].call) {
+				s1, s2 = scans[1], scans[0]
+				break
+			}
+			if in == ssa.Instruction(scans[0].call) {
+				break
+			}
+		}
+	default:
 		c.Undecided("O4", "hashtag scans", fn.Pos(), "the two scans are not sequential")
 		return
 	}
-	c.Check(l1.ch == '{' && l1.ls.initOK, "O4", "first scan", l1.ls.phi.Pos(), "i = first index of '{' from 0", "first scan is not `first '{' from index 0`")
-	c.Check(l2.ch == '}', "O4", "second scan byte", l2.ls.phi.Pos(), "second scan looks for '}'", "second scan does not look for '}'")
-	// no other element reads of b
-	extra := false
-	eachInstr(fn, func(b *ssa.BasicBlock, i int, in ssa.Instruction) {
-		if ia, ok := in.(*ssa.IndexAddr); ok && ia.X == ssa.Value(prm) && b != l1.ls.body && b != l2.ls.body {
-			extra = true
-		}
-		if cc := callOf(in); cc != nil {
-			if _, isB := cc.Value.(*ssa.Builtin); !isB {
-				extra = true
-			}
-		}
-	})
-	c.Check(!extra, "O4", "bytes touched only by the two scans", fn.Pos(), "no other element read or call", "the key bytes are read outside the two scans (behaviour no longer depends only on the ordering of the two positions)")
+	c.Check(s1.ch == '{' && s1.start == nil, "O4", "first scan", s1.pos, "i = first index of '{' from 0", "first scan is not `first '{' from index 0`")
+	c.Check(s2.ch == '}', "O4", "second scan byte", s2.pos, "second scan looks for '}'", "second scan does not look for '}'")
+	c.Check(extra == "", "O4", "bytes touched only by the two scans", fn.Pos(), "no other element read or call", "the key bytes are read outside the two scans ("+extra+"): behaviour no longer depends only on the ordering of the two positions")
 
-	// linear terms over I (phi1), J (phi2), n
-	var lin func(v ssa.Value) (lterm, bool)
-	lin = func(v ssa.Value) (lterm, bool) {
+	// affine forms over I (first '{', n if none), J (first '}' after I, n if none), n, K (second loop's index variable)
+	ri := 0
+	var z *Zone
+	var lin func(v ssa.Value) (aff, bool)
+	startOfSecond := func() (aff, bool) {
+		if s2.start == nil {
+			return affConst(0), true
+		}
+		return lin(s2.start)
+	}
+	lin = func(v ssa.Value) (aff, bool) {
 		switch x := v.(type) {
 		case *ssa.Phi:
-			if x == l1.ls.phi {
-				return lterm{"I", 0}, true
+			if s1.loop != nil && x == s1.loop.ls.phi {
+				return affVar("I"), true
 			}
-			if x == l2.ls.phi {
-				return lterm{"K", 0}, true // value of second index variable
+			if s2.loop != nil && x == s2.loop.ls.phi {
+				return affVar("K"), true
 			}
 		case *ssa.Const:
 			if cv, ok := constInt(x); ok {
-				return lconst(cv), true
+				return affConst(cv), true
 			}
 		case *ssa.BinOp:
 			if x.Op == token.ADD || x.Op == token.SUB {
-				a, ok := lin(x.X)
-				cv, isC := constInt(x.Y)
-				if ok && isC {
+				a, ok1 := lin(x.X)
+				b, ok2 := lin(x.Y)
+				if ok1 && ok2 {
 					if x.Op == token.SUB {
-						cv = -cv
+						return a.add(b, -1), true
 					}
-					return lterm{a.v, a.c + cv}, true
+					return a.add(b, 1), true
 				}
 			}
 		case *ssa.Call:
 			if isLenOf(x, prm) {
-				return lterm{"n", 0}, true
+				return affVar("n"), true
+			}
+			if s1.call == x {
+				// bytes.IndexByte(b, '{'): -1 when absent
+				if ri == 0 {
+					return affConst(-1), true
+				}
+				return affVar("I"), true
+			}
+			if s2.call == x {
+				st, ok := startOfSecond()
+				if !ok || ri == 0 {
+					return aff{}, false
+				}
+				// the scan must start right after (or at) the first '{': b[I] = '{' is not '}'
+				d := st.add(affVar("I"), -1)
+				if len(d.co) != 0 || (d.k != 0 && d.k != 1) {
+					return aff{}, false
+				}
+				if ri == 1 {
+					return affConst(-1), true // no '}' after the '{'
+				}
+				return affVar("J").add(st, -1), true
 			}
 		}
-		return lterm{}, false
+		return aff{}, false
 	}
-	init2, ok := lin(l2.ls.initTerm)
-	if !ok {
-		c.Undecided("O4", "second scan start", l2.ls.phi.Pos(), "start of the second scan is not a linear term of the first position")
-		return
-	}
-	// regions over semantic positions I (first '{'), J (first '}' after I)
 	type region struct {
 		name string
 		mk   func(z *Zone)
@@ -606,9 +738,11 @@ func checkHashTag(c *Ctx, fn *ssa.Function) {
 			z.addLT(lterm{"J", 0}, lterm{"n", 0})
 		}, "tag"},
 	}
-	for ri, rg := range regions {
+	wantText := map[string]string{"whole": "the whole key", "tag": "b[I+1:J]"}
+	for k, rg := range regions {
+		ri = k
 		site := fmt.Sprintf("region %d: %s", ri+1, rg.name)
-		z := newZone()
+		z = newZone()
 		z.addLE(lconst(0), lterm{"I", 0})
 		z.addLE(lterm{"I", 0}, lterm{"n", 0})
 		rg.mk(z)
@@ -616,7 +750,6 @@ func checkHashTag(c *Ctx, fn *ssa.Function) {
 			z.addLE(lterm{"I", 1}, lterm{"J", 0})
 			z.addLE(lterm{"J", 0}, lterm{"n", 0})
 		}
-		// walk
 		b := fn.Blocks[0]
 		steps := 0
 		verdict := ""
@@ -625,8 +758,16 @@ func checkHashTag(c *Ctx, fn *ssa.Function) {
 		for steps < 64 {
 			steps++
 			if fl, isLoop := loops[b]; isLoop {
-				if fl == l2 {
-					// semantic value of the second index given its start
+				if s2.loop == fl {
+					st, ok := startOfSecond()
+					l, r, okc := affCmp(st, affConst(0))
+					_ = r
+					if !ok || !okc {
+						verdict = "start of the second scan is not a linear term of the first position"
+						at = fl.ls.phi.Pos()
+						break walk
+					}
+					init2 := l
 					switch {
 					case z.entLE(lterm{"n", 0}, init2): // start >= n: loop does not run
 						z.addEQ(lterm{"K", 0}, init2)
@@ -634,7 +775,7 @@ func checkHashTag(c *Ctx, fn *ssa.Function) {
 						// first '}' from I+1; from I is the same position because b[I]='{' != '}'
 						z.addEQ(lterm{"K", 0}, lterm{"J", 0})
 					default:
-						verdict = "second scan starts at " + fmt.Sprintf("%s%+d", init2.v, init2.c) + ", not right after the first '{'"
+						verdict = "second scan starts at " + st.String() + ", not right after the first '{'"
 						at = fl.ls.phi.Pos()
 						break walk
 					}
@@ -656,11 +797,17 @@ func checkHashTag(c *Ctx, fn *ssa.Function) {
 				x, ok1 := lin(cmp.X)
 				y, ok2 := lin(cmp.Y)
 				if !ok1 || !ok2 {
-					verdict = "branch condition is not a comparison of positions"
+					verdict = "branch condition `" + cmp.String() + "` is not a comparison of scan positions in this region"
 					at = cmp.Pos()
 					break walk
 				}
-				d := z.decide(cmp.Op.String(), x, y)
+				l, r, okc := affCmp(x, y)
+				if !okc {
+					verdict = "branch condition `" + cmp.String() + "` relates more than two positions"
+					at = cmp.Pos()
+					break walk
+				}
+				d := z.decide(cmp.Op.String(), l, r)
 				if d < 0 {
 					verdict = "branch `" + cmp.String() + "` is not decided by the ordering of this region"
 					at = cmp.Pos()
@@ -680,10 +827,15 @@ func checkHashTag(c *Ctx, fn *ssa.Function) {
 				} else if sl, ok := r.(*ssa.Slice); ok && sl.X == ssa.Value(prm) && sl.Max == nil && sl.Low != nil && sl.High != nil {
 					lo, ok1 := lin(sl.Low)
 					hi, ok2 := lin(sl.High)
-					if ok1 && ok2 && z.entEQ(lo, lterm{"I", 1}) && z.entEQ(hi, lterm{"J", 0}) {
-						got = "tag"
-					} else {
-						got = "other slice"
+					got = "other slice"
+					if ok1 && ok2 {
+						l1, r1, c1 := affCmp(lo, affVar("I").add(affConst(1), 1))
+						l2, r2, c2 := affCmp(hi, affVar("J"))
+						if c1 && c2 && z.entEQ(l1, r1) && z.entEQ(l2, r2) {
+							got = "tag"
+						} else {
+							got = fmt.Sprintf("b[%s : %s]", lo, hi)
+						}
 					}
 				} else {
 					got = "other value"
@@ -691,7 +843,11 @@ func checkHashTag(c *Ctx, fn *ssa.Function) {
 				if got == rg.want {
 					verdict = "OK"
 				} else {
-					verdict = fmt.Sprintf("returns %s, the specification requires %s", got, map[string]string{"whole": "the whole key", "tag": "b[I+1:J]"}[rg.want])
+					gt := got
+					if t, ok := wantText[got]; ok {
+						gt = t
+					}
+					verdict = fmt.Sprintf("returns %s, the specification requires %s", gt, wantText[rg.want])
 				}
 				break walk
 			default:
@@ -703,10 +859,9 @@ func checkHashTag(c *Ctx, fn *ssa.Function) {
 			verdict = "decision tree walk did not terminate"
 		}
 		if verdict == "OK" {
-			c.OK("O4", site, at, "decision tree returns "+map[string]string{"whole": "the whole key", "tag": "b[I+1:J]"}[rg.want])
+			c.OK("O4", site, at, "decision tree returns "+wantText[rg.want])
 		} else {
 			c.Fail("O4", site, at, verdict)
 		}
 	}
-	_ = p
 }
